@@ -1,7 +1,7 @@
 #!/bin/bash
 # sequentially confirm seeds whose ids (plus optional extra arguments) are appended to /tmp/seed/queue.txt
 touch /tmp/seed/queue.txt
-tail -n +1 -f /tmp/seed/queue.txt | while read id rest; do
+tail -n +1 -F /tmp/seed/queue.txt | while read id rest; do
   [ -z "$id" ] && continue
   cd /verif && python3 tools/seed_confirm.py $id $rest > /tmp/seed/$id.confirm.log 2>&1
   echo "$id done $(date +%H:%M:%S)" >> /tmp/seed/queue.done
